@@ -42,6 +42,9 @@ func removeBlockTypeArgs(argTs []*base.T) []*base.T {
 	return variants
 }
 
+// conditioningMethodReturn picks the return variant of a conditional-return
+// method. The variant is handed out as a copy: the caller stores it as the
+// last evaluated value, and an assignment writes through that pointer.
 func conditioningMethodReturn(
 	m *MethodEvaluator,
 	class string,
@@ -60,7 +63,7 @@ func conditioningMethodReturn(
 				return methodT
 			}
 
-			return &variants[argCount]
+			return variants[argCount].DeepCopy()
 		}
 
 		if defineArgT.IsUnionType() {
@@ -70,7 +73,7 @@ func conditioningMethodReturn(
 
 					if variant.GetType() == argT.GetType() || (isAny) {
 						variants := methodT.GetVariants()
-						return &variants[idx]
+						return variants[idx].DeepCopy()
 					}
 				}
 			}
@@ -83,7 +86,7 @@ func conditioningMethodReturn(
 
 			if defineArgT.GetType() == argT.GetType() || (isAny) {
 				variants := methodT.GetVariants()
-				return &variants[idx]
+				return variants[idx].DeepCopy()
 			}
 		}
 	}
